@@ -1617,7 +1617,7 @@ func genC17(t *rapid.T) c17Case {
 			if m.Spec.ErrMissing != nil {
 				m.Spec.Stmt = rapid.Bool().Draw(t, "stmtform")
 			}
-		case kind < 4 && !(yamlDoc && node.K == "num"): // wrong type (an existing null is not a string either, in JSON and in YAML)
+		case kind < 4: // wrong type (an existing null is not a string either, in JSON and in YAML; a YAML integer is not a string)
 			m.Spec = MatcherSpec{Kind: "type", Paths: []string{path}, TypeName: wrongType(node, yamlDoc)}
 			if rapid.Bool().Draw(t, "tolerantflag") {
 				m.Spec.ErrMissing = boolp(false) // irrelevant: the path exists
@@ -1635,7 +1635,7 @@ func genC17(t *rapid.T) c17Case {
 				}
 			}
 			if child == "" {
-				m.Spec = MatcherSpec{Kind: "custom", Paths: []string{path}, ReturnErr: "custom callback says no"}
+				m.Spec = MatcherSpec{Kind: "custom", Paths: []string{path}, ReturnErr: "custom callback says no", ReturnInput: rapid.Bool().Draw(t, "returninput")}
 			} else {
 				m.Spec = MatcherSpec{Kind: "any", Paths: []string{path, child}}
 				m.FailPath = child // after the parent was replaced by the placeholder the descendant does not exist any more
@@ -1673,7 +1673,7 @@ func genC17(t *rapid.T) c17Case {
 			m.Comps = comps
 			used = append(used, comps)
 		case kind < 6: // custom error
-			m.Spec = MatcherSpec{Kind: "custom", Paths: []string{path}, ReturnErr: "custom callback says no"}
+			m.Spec = MatcherSpec{Kind: "custom", Paths: []string{path}, ReturnErr: "custom callback says no", ReturnInput: rapid.Bool().Draw(t, "returninput")}
 			m.Failing = true
 			m.Comps = comps
 			used = append(used, comps)
